@@ -19,14 +19,14 @@ func init() {
 	run.Register(&run.Check{
 		ID:    "C11",
 		Level: "exploration",
-		Rule: "cases: batches of random programs (<= 12 steps) over a pool of 4-6 live values of the REAL common.ConnectionSet / common.PortSet types (reached through the verif alias export), built as the code builds them (MakeConnectionSet(true|false), single-protocol sets from ranges / single ports / the full range / named ports) and combined with Union, Intersection, Subtract, Copy; after every step every pool member is compared with a three-bitset model through ProtocolsAndPortsMap and Contains, non-receiver members must be unchanged (deep snapshots), a probe mutation of one member must not show through any other (aliasing), equal denotations must be Equal and print identically, the full set must be flagged and printed 'All Connections', ContainedIn/Equal/IsEmpty must agree with the model; for values carrying named-port bookkeeping only the clauses the statement makes are checked (containment clause, the difference law - a non-empty A minus B is never contained in B -, the union law - B is contained in A united with B -, no operand mutation, no aliasing, Copy/Equal/String consistency, exact numeric part); " +
+		Rule: "cases: batches of random programs (<= 12 steps) over a pool of 4-6 live values of the REAL common.ConnectionSet / common.PortSet types (reached through the verif alias export), built as the code builds them (MakeConnectionSet(true|false), single-protocol sets from ranges / single ports / the full range / named ports) and combined with Union, Intersection, Subtract, Copy; after every step every pool member is compared with a three-bitset model through ProtocolsAndPortsMap and Contains, non-receiver members must be unchanged (deep snapshots), a probe mutation of one member must not show through any other (aliasing), equal denotations must be Equal and print identically, the full set must be flagged and printed 'All Connections', ContainedIn/Equal/IsEmpty must agree with the model; for values carrying named-port bookkeeping only the clauses the statement makes are checked (containment clause, the difference law - a non-empty A minus B is never contained in B -, the union law - B is contained in A united with B -, the intersection law - A contained in B is left unchanged by intersecting it with B -, no operand mutation, no aliasing, Copy/Equal/String consistency, exact numeric part); " +
 			"non-trivial = a program in which at least one operation changed its receiver and at least one comparison query was answered both ways; distinct = program text hash",
 		Assumptions:       []string{"operands are the values reachable from MakeConnectionSet and single-protocol sets by the listed operations (a three-protocol value assembled by raw AddConnection calls and never passed through Union is not an operand)", "ports concentrate on {1,2,79,80,81,65534,65535} and a few ranges so that adjacency and merging happen"},
 		NumCases:          func(tier string, _ int64) int { return tierN(tier, 400, 20000) },
 		Run:               runC11,
 		MinNonTrivial:     200,
 		MinEffectiveShare: 0.8,
-		RequiredEvents: map[string]int64{"programs": 20000, "operations": 100000, "denotation_checks": 400000, "alias_probes": 50000, "named_containment_clause_checked": 1000, "named_difference_law_checked": 500, "named_union_law_checked": 500,
+		RequiredEvents: map[string]int64{"programs": 20000, "operations": 100000, "denotation_checks": 400000, "alias_probes": 50000, "named_containment_clause_checked": 1000, "named_difference_law_checked": 500, "named_union_law_checked": 500, "named_intersection_law_checked": 100,
 			"op_Union": 10000, "op_Intersection": 10000, "op_Subtract": 10000, "op_Copy": 5000, "full_set_seen": 1000, "containedin_true": 1000, "containedin_false": 1000, "equal_true": 1000},
 	})
 }
@@ -225,6 +225,10 @@ func runC11(c *run.Ctx) {
 			r.Ev("op_"+op, 1)
 			trace = append(trace, fmt.Sprintf("%s(%d,%d)", op, i, j))
 			namedBefore := namedInvolved(a.real) || namedInvolved(b.real)
+			var containedCopy *connlist.VerifConnectionSet
+			if op == "Intersection" && namedBefore && i != j && a.real.ContainedIn(b.real) {
+				containedCopy = a.real.Copy() // A contained in B: intersecting with B must leave A as it is
+			}
 			switch op {
 			case "Union":
 				a.real.Union(b.real)
@@ -258,6 +262,12 @@ func runC11(c *run.Ctx) {
 			if i == j && op != "Copy" {
 				// x op x : receiver is also the operand; only the denotation is checked
 				before = nil
+			}
+			if containedCopy != nil {
+				r.Ev("named_intersection_law_checked", 1)
+				if !a.real.Equal(containedCopy) {
+					fail("denote", "intersection-with-superset-changes-set", "A unchanged by intersecting it with a set that contains it", snapshot(containedCopy)+" became "+snapshot(a.real)+" after intersecting with "+snapshot(b.real))
+				}
 			}
 			if namedBefore && op == "Union" && i != j {
 				// laws of union that hold under every reading of a named port: the result contains both operands (the right operand is
